@@ -74,8 +74,10 @@ class LimitedTaskQueue:
                 released.append(itask)
                 n_active += 1
                 active.update({itask.tdef.name: 1})
-        for itask in held:
-            self.deque.appendleft(itask)
+        # Put held tasks back where they were (at the head of the queue, in
+        # their original order) so they keep their place for when released.
+        for itask in reversed(held):
+            self.deque.append(itask)
         return released
 
     def remove(self, itask: 'TaskProxy') -> bool:
